@@ -7,7 +7,7 @@
 (*   ClientSend    client/auth.go makeAuthenticationPayload +              *)
 (*                 client/TLS.go DirectTLS.Handshake (hello) /             *)
 (*                 client/websocket.go WSOverTLS.Handshake (GET + hidden)  *)
-(*   Tamper(c)     the network (attacker without keys)                     *)
+(*   Tamper(c)     the network (attacker without keys; loworder = forgery) *)
 (*   ServerDecide  server/dispatcher.go dispatchConnection up to the       *)
 (*                 reply / goWeb: readFirstPacket, AuthFirstPacket         *)
 (*                 (TLS.go / websocket.go processFirstPacket, auth.go      *)
@@ -62,11 +62,18 @@ TamperClasses(tr) ==
    "bit255",   \* top bit of random: ignored by X25519 (RFC 7748) - same key, same nonce
    "blockA",   \* first half of the sealed block  (TLS: session id;  WS: hidden[32:64])
    "blockB",   \* second half of the sealed block (TLS: x25519 key share; WS: hidden[64:96])
-   "other"}    \* TLS: SNI, cipher suites, other extensions; WS: request line and other headers
+   "other",    \* TLS: SNI, cipher suites, other extensions; WS: request line and other headers
+   "loworder"} \* a FORGED packet: random = a small-order point (0, 1, order 8, p-1, p, p+1), for which X25519
+               \* yields the all-zero secret whatever the private key: the sender needs no server key
   \cup (IF tr = "direct" THEN {"len"}   \* record / handshake / vector length, type and version fields
                          ELSE {"b64"})  \* hidden value no longer well-formed base64
 
+\* env.ustate is what the server's configuration / database says about cfg.uid NOW.  env.cache is the history
+\* of that UID at this server: "none" = no record in the panel; "idle" = it connected earlier (it was authorised
+\* then), its last session has just been removed and the record is still cached, session-less; "busy" = the
+\* record is cached with another live session.  A new session needs the CURRENT authorisation in all three.
 Authorised(us) == us \in {"bypass", "admin", "dbok"}
+Caches == {"none", "idle", "busy"}
 
 -----------------------------------------------------------------------------
 \* ------------------------------------------------------------ symbolic crypto
@@ -103,9 +110,16 @@ Hello(c) ==
    f2    |-> [blk |-> blk, ok |-> TRUE],     \* TLS x25519 key share / hidden[64:96]
    lenok |-> TRUE, otherok |-> TRUE, b64ok |-> TRUE]
 
+ZeroSecret == {"zero"}     \* X25519(anything, small-order point): known to everybody
+
+\* the forger seals a plaintext of its choice (here: the identity and stamp of cfg) under the zero secret
+Forged(p) == Seal(ZeroSecret, "z", p.f1.blk.pt)
+
 Apply(p, c) ==
   CASE c = "randsig" -> [p EXCEPT !.point = "j"]
     [] c = "nonce"   -> [p EXCEPT !.point = "j", !.n12 = "j"]
+    [] c = "loworder" -> [p EXCEPT !.point = IF @ = "e" THEN "z" ELSE "j", !.n12 = IF @ = "e" THEN "z" ELSE "j",
+                                   !.f1.blk = Forged(p), !.f2.blk = Forged(p)]
     [] c = "bit255"  -> [p EXCEPT !.top = 1 - @]
     [] c = "blockA"  -> [p EXCEPT !.f1.ok = FALSE]
     [] c = "blockB"  -> [p EXCEPT !.f2.ok = FALSE]
@@ -120,12 +134,15 @@ Apply(p, c) ==
 \* statement leaves this open, so does the spec.
 ParseChoices(p) == IF p.lenok /\ p.otherok /\ p.b64ok THEN {"same"} ELSE {"same", "garbled", "fail"}
 
-ServerSecret(p) == DH("s", Pub(p.point))
+ServerSecret(p) == IF p.point = "z" THEN ZeroSecret ELSE DH("s", Pub(p.point))
+
+\* X25519 reports an error exactly for small-order points; the server must stop there (TLS.go / websocket.go)
+PointOK(p) == p.point # "z" \/ "LowOrderAccepted" \in Dev
 
 OpenHello(p, choice) ==
   LET intact == choice = "same" /\ p.f1.ok /\ p.f2.ok
       match  == p.f1.blk.key = ServerSecret(p) /\ p.f1.blk.nonce = p.n12
-  IN  IF choice # "fail" /\ ((intact /\ match) \/ (intact /\ "IgnoreDecryptError" \in Dev))
+  IN  IF choice # "fail" /\ PointOK(p) /\ ((intact /\ match) \/ (intact /\ "IgnoreDecryptError" \in Dev))
         THEN [ok |-> TRUE, pt |-> p.f1.blk.pt]
         ELSE [ok |-> FALSE, pt |-> p.f1.blk.pt]
 
@@ -158,7 +175,8 @@ Outcome(p, choice) ==
         admin == us = "admin" /\ (info.sid = "zero" \/ "AdminNoSid" \in Dev)
     IN IF admin THEN [verdict |-> "admin", info |-> info, key |-> "K", reply |-> reply]
        ELSE IF ~info.method.served /\ "SkipMethodCheck" \notin Dev THEN Redirect
-       ELSE IF ~Authorised(us) /\ "SkipUidCheck" \notin Dev THEN Redirect
+       ELSE IF ~Authorised(us) /\ "SkipUidCheck" \notin Dev
+               /\ ~(env.cache = "idle" /\ "SkipRecheckSessionless" \in Dev) THEN Redirect
        ELSE [verdict |-> "accept", info |-> info, key |-> "K", reply |-> reply]
 
 -----------------------------------------------------------------------------
@@ -191,10 +209,12 @@ Configs ==
 
 Envs ==
   IF Scope = "agree"
-    THEN [ustate : {"bypass", "dbok", "admin"}, off : Offsets, rightKey : {TRUE}]
+    THEN [ustate : {"bypass", "dbok", "admin"}, off : Offsets, rightKey : {TRUE}, cache : {"none"}]
   ELSE IF Scope = "sound"
-    THEN [ustate : UStates, off : Offsets, rightKey : BOOLEAN]
-  ELSE [ustate : {"bypass", "admin", "unknown"}, off : {0, W, W + 1}, rightKey : BOOLEAN]
+    THEN [ustate : UStates, off : Offsets, rightKey : BOOLEAN, cache : {"none"}]
+         \cup [ustate : {"dbok", "nocredit", "expired", "unknown"}, off : {0}, rightKey : {TRUE}, cache : {"idle", "busy"}]
+  ELSE [ustate : {"bypass", "admin", "unknown"}, off : {0, W, W + 1}, rightKey : BOOLEAN, cache : {"none"}]
+       \cup [ustate : {"unknown"}, off : {0}, rightKey : {TRUE}, cache : {"idle"}]
 
 Compatible(c, e) ==
   Scope = "agree" =>
@@ -223,6 +243,8 @@ Tamper(c) ==
   /\ phase = "wire"
   /\ Cardinality(tampers) < MaxTamper
   /\ c \in TamperClasses(cfg.tr) \ tampers
+  /\ env.cache = "none"                       \* histories are explored on untouched packets
+  /\ (Scope = "neg" => c = "loworder")        \* the vacuity space needs this one class only
   /\ pkt' = Apply(pkt, c)
   /\ tampers' = tampers \cup {c}
   /\ UNCHANGED <<phase, cfg, env, srv, cli, dev>>
@@ -242,7 +264,7 @@ ClientFinish ==
 
 Next ==
   \/ ClientSend
-  \/ \E c \in {"randsig", "nonce", "bit255", "blockA", "blockB", "len", "b64", "other"} : Tamper(c)
+  \/ \E c \in {"randsig", "nonce", "bit255", "blockA", "blockB", "len", "b64", "other", "loworder"} : Tamper(c)
   \/ \E ch \in {"same", "garbled", "fail"} : ServerDecide(ch)
   \/ ClientFinish
 
@@ -255,7 +277,7 @@ Accepted == phase \in {"decided", "done"} /\ srv.verdict \in {"accept", "admin"}
 StrictWindow == env.off > -W /\ env.off < W
 
 \* ghost facts about the packet the server saw
-SealedToS      == env.rightKey
+SealedToS      == env.rightKey /\ "loworder" \notin tampers
 BlockUnmodified ==
   /\ pkt.f1.ok /\ pkt.f2.ok                 \* sealed block as sent
   /\ pkt.point = "e" /\ pkt.n12 = "e"       \* the key and nonce it was sealed under (bit 255 is not part of either)
@@ -294,7 +316,8 @@ AdminReach ==
 
 TypeOK ==
   /\ phase \in {"start", "wire", "decided", "done"}
-  /\ tampers \subseteq {"randsig", "nonce", "bit255", "blockA", "blockB", "len", "b64", "other"}
+  /\ tampers \subseteq {"randsig", "nonce", "bit255", "blockA", "blockB", "len", "b64", "other", "loworder"}
+  /\ env.cache \in Caches
   /\ Cardinality(tampers) <= MaxTamper
   /\ srv.verdict \in {"accept", "admin", "redirect"}
   /\ cli.ok \in BOOLEAN
